@@ -142,6 +142,13 @@ func (c *c18) DumpCase(seed uint64, idx int) []Case {
 		}
 	}
 	cs.Opts.Banned = banned
+	if len(cs.Project.Files) > 1 && r.chance(80) {
+		// one of the included files is a symbolic link to its text: nothing the option may care about
+		q := cs.Project.clone()
+		if linkOneFile(&q, r) {
+			cs.Project = q
+		}
+	}
 	cs.Opts.SplitBans = len(banned) > 1 && r.chance(500)
 	if len(banned) > 0 && r.chance(400) {
 		cs.Opts.BanLayout = r.next() | 1
